@@ -201,8 +201,9 @@ class Heap:
             ctypes.memset(addr + n, self.redzone, EDGE)
             ctypes.memset(addr + cap, self.redzone, rz)
         self.seq += 1
-        t = getattr(threading.current_thread(), "sim_id", None)
-        b = Block(self.seq, addr, n, cap, self.current_call, t, kind)
+        th = threading.current_thread()
+        t = getattr(th, "sim_id", None)
+        b = Block(self.seq, addr, n, cap, getattr(th, "sim_call", None) or self.current_call, t, kind)
         self.blocks[addr] = b
         self.by_id[b.id] = b
         return b
